@@ -311,6 +311,7 @@ def run(res: Results, idx: Index, tier: str) -> None:
                 res.add("R-C05d", inst.status, inst.site, f"{inst.rule}::{inst.key}", f"[C08 {inst.rule}] {inst.detail}", inst.func)
     rule_f(res, idx)
     rule_g(res, idx)
+    rule_i(res, idx)
     if not getattr(res, "_nested_xref", False):
         # the declared element type of an input follows the dtype the input specification is normalised to: a normalisation
         # step that consults the ambient x64 flag (outside the export's precision scope) narrows 64-bit example arrays in a
@@ -521,3 +522,64 @@ def rule_g(res: Results, idx: Index) -> None:
     else:
         res.violation("R-C05g", f"{UI}:{z.lineno}", key, f"`{src(z, 50)}` pairs the requested names with the graph's output values as they are ({why}): when a leaf is a positional input the name given to the "
                       "output renames the input as well (or conflicts with its own custom name), and a repeated leaf cannot get two names", f.qualname)
+
+
+# ---------------------------------------------------------------------------------------------- R-C05i
+def rule_i(res: Results, idx: Index) -> None:
+    """Helpers that create a top-level graph input on request (`ensure_external_flag(name, var)`: written for the BOOL flag
+    `deterministic`) declare it with a fixed element type.  A caller that passes an arbitrary call-parameter name — the
+    function plugin routes every `input_params` entry of an @onnx_function through it — gets a BOOL input for a float
+    parameter (the model does not type-check).  Every call site whose name argument is not a string literal has to hand the
+    parameter's own element type to the helper; the helper has to use it."""
+    res.rule("R-C05i", "graph inputs created on behalf of a caller-named call parameter take their element type from the caller", floor=2)
+    n = 0
+    helpers = []
+    for m in idx.product_modules():
+        if not m.rel.startswith("jax2onnx/converter/"):
+            continue
+        for fi in m.funcs.values():
+            a = fi.node.args  # type: ignore[attr-defined]
+            pnames = [x.arg for x in a.posonlyargs + a.args + a.kwonlyargs]
+            if "name" not in pnames:
+                continue
+            for c in walk_no_nested(fi.node):
+                if isinstance(c, ast.Call) and isinstance(c.func, ast.Attribute) and c.func.attr == "append" and src(c.func.value, 40).endswith("inputs") and c.args and isinstance(c.args[0], ast.Name):
+                    du = defuse(fi.node)
+                    for d in du.defs.get(c.args[0].id, []):
+                        if d.value is not None and isinstance(d.value, ast.Call) and (call_name(d.value) or "").endswith("ir.Value") and any(k.arg == "name" and isinstance(k.value, ast.Name) and k.value.id == "name" for k in d.value.keywords):
+                            ty = next((k.value for k in d.value.keywords if k.arg == "type"), None)
+                            helpers.append((m, fi, d.value, ty, pnames))
+    for m, fi, vcall, ty, pnames in helpers:
+        n += 1
+        key = f"{m.rel}::{fi.qualname}::created-input-type"
+        site = f"{m.rel}:{vcall.lineno}"
+        ty_names = names_in(ty) if ty is not None else set()
+        param_typed = bool(ty_names & set(pnames))
+        if param_typed:
+            res.ok("R-C05i", site, key, f"the created input is typed `{src(ty, 50)}` from the helper's parameter {sorted(ty_names & set(pnames))}", fi.qualname)
+        else:
+            res.ok("R-C05i", site, key, f"the created input has the fixed type `{src(ty, 50) if ty is not None else '?'}` (every caller must then name a flag of that type)", fi.qualname)
+        # call sites
+        for m2 in idx.product_modules():
+            if fi.name not in m2.src:
+                continue
+            for f2 in m2.funcs.values():
+                for c in walk_no_nested(f2.node):
+                    if not (isinstance(c, ast.Call) and isinstance(c.func, ast.Attribute) and c.func.attr == fi.name and c.args):
+                        continue
+                    n += 1
+                    k2 = f"{m2.rel}::{f2.qualname}::{fi.name}({src(c.args[0], 30)})"
+                    s2 = f"{m2.rel}:{c.lineno}"
+                    literal = isinstance(c.args[0], ast.Constant) and isinstance(c.args[0].value, str)
+                    flagvar = isinstance(c.args[0], ast.Name) and "flag" in c.args[0].id.lower()
+                    passes_type = any(k.arg in ("dtype", "type", "elem_type") for k in c.keywords)
+                    if literal or flagvar:
+                        res.ok("R-C05i", s2, k2, "names a fixed flag", f2.qualname)
+                    elif passes_type and param_typed:
+                        res.ok("R-C05i", s2, k2, "passes the parameter's element type and the helper uses it", f2.qualname)
+                    else:
+                        res.violation("R-C05i", s2, k2, f"`{src(c, 60)}` asks {fi.name}() for a graph input named after an arbitrary call parameter, " + ("but passes no element type" if not passes_type else "but the helper ignores the type")
+                                      + f": the input is declared `{src(ty, 40) if ty is not None else '?'}` whatever the parameter's dtype (a float `input_params` entry routed into an @onnx_function becomes a BOOL input; the model is invalid)", f2.qualname)
+    res.analysed["input_creating_helpers"] = len(helpers)
+    if not helpers:
+        raise AnalysisError("no helper that creates a named graph input was found (ensure_external_flag moved?)")
